@@ -130,35 +130,95 @@ func c18Writer(c *Ctx) {
 	}
 	// ResetOp
 	if f := c.method(rule, wsutil, "Writer", "ResetOp"); f != nil {
-		m := c.machine()
-		var obj *fold.Obj
-		var before, after []string
 		var problems []string
-		ps := m.Explore(f, func(mm *fold.Machine) []fold.Val {
-			cfg := writerCfg{rawLen: 16, offset: 6, client: true, n: 5, dirty: true, fseq: 2, sticky: false, noFlush: true, nExt: 2, op: 9}
-			obj, _ = newWriterObj(mm, L, cfg)
-			before = render(mm, obj)
-			return []fold.Val{fold.Ref{O: obj}, fold.K(1)}
-		}, func(mm *fold.Machine, p *fold.Path) { after = render(mm, obj) })
-		for _, p := range ps {
-			if p.Abort != "" || p.Panic {
-				problems = append(problems, "undecided: "+p.Abort)
-			}
-		}
-		want := map[int]string{L.op: "1", L.n: "0", L.dirty: "false", L.fseq: "0"}
-		for i := range after {
-			if len(before) != len(after) {
-				break
-			}
-			if w, ok := want[i]; ok {
-				if after[i] != w {
-					problems = append(problems, fmt.Sprintf("ResetOp leaves %q = %s, want %s", names[i], after[i], w))
+		// from every combination of leftovers: bytes buffered or not, dirty or not (ReadFrom flushes
+		// fragments without marking the message dirty), fragments sent or not, failed or not
+		for _, nbuf := range []int{0, 5} {
+			for _, dirty := range []bool{false, true} {
+				for _, fseq := range []int{0, 2} {
+					for _, sticky := range []bool{false, true} {
+						cfg := writerCfg{rawLen: 16, offset: 6, client: true, n: nbuf, dirty: dirty, fseq: fseq, sticky: sticky, noFlush: true, nExt: 2, op: 9}
+						m := c.machine()
+						var obj *fold.Obj
+						var before, after []string
+						ps := m.Explore(f, func(mm *fold.Machine) []fold.Val {
+							obj, _ = newWriterObj(mm, L, cfg)
+							before = render(mm, obj)
+							return []fold.Val{fold.Ref{O: obj}, fold.K(1)}
+						}, func(mm *fold.Machine, p *fold.Path) { after = render(mm, obj) })
+						for _, p := range ps {
+							if p.Abort != "" || p.Panic {
+								problems = append(problems, "undecided: "+p.Abort)
+							}
+						}
+						want := map[int]string{L.op: "1", L.n: "0", L.dirty: "false", L.fseq: "0"}
+						for i := range after {
+							if len(before) != len(after) {
+								break
+							}
+							if w, ok := want[i]; ok {
+								if after[i] != w {
+									problems = append(problems, fmt.Sprintf("ResetOp leaves %q = %s, want %s [%s]", names[i], after[i], w, cfg))
+								}
+							} else if after[i] != before[i] {
+								problems = append(problems, fmt.Sprintf("ResetOp changes %q (%s -> %s) although it documents keeping it (a sticky error that disappears lets the next message be written into a failed connection) [%s]", names[i], before[i], after[i], cfg))
+							}
+						}
+					}
 				}
-			} else if after[i] != before[i] {
-				problems = append(problems, fmt.Sprintf("ResetOp changes %q (%s -> %s) although it documents keeping it", names[i], before[i], after[i]))
 			}
 		}
-		c.verdict(rule, rule+"/ResetOp", c.P.FuncPos(f), uniq(problems), "stores op, n, dirty, fseq and nothing else")
+		c.verdict(rule, rule+"/ResetOp", c.P.FuncPos(f), uniq(problems), "stores op, n, dirty, fseq and nothing else, from every combination of leftovers")
+	}
+	// SetExtensions / DisableFlush: the setters replace, they do not accumulate
+	if f := c.method(rule, wsutil, "Writer", "SetExtensions"); f != nil {
+		var problems []string
+		for _, had := range []int{0, 2} {
+			for _, give := range []int{0, 1, 2} {
+				had, give := had, give
+				m := c.machine()
+				var obj *fold.Obj
+				ps := m.Explore(f, func(mm *fold.Machine) []fold.Val {
+					obj, _ = newWriterObj(mm, L, writerCfg{rawLen: 16, offset: 2, nExt: had, op: 1})
+					el := make([]fold.Val, give)
+					for i := range el {
+						el[i] = fold.Sym{Name: fmt.Sprintf("new-ext%d", i+1), NonNil: true}
+					}
+					var xs fold.Val = fold.Nil{}
+					if give > 0 {
+						xs = fold.SliceV{O: mm.NewObj("xs", fold.Arr{E: el}), Len: int64(give), Cap: int64(give)}
+					}
+					return []fold.Val{fold.Ref{O: obj}, xs}
+				}, func(mm *fold.Machine, p *fold.Path) {
+					got := "nil"
+					if s, ok := mm.Load(fold.Ref{O: obj, Path: []int{L.exts}}).(fold.SliceV); ok {
+						var ns []string
+						for _, e := range mm.Elems(s) {
+							ns = append(ns, nameOf(e))
+						}
+						got = strings.Join(ns, ",")
+					}
+					var wantN []string
+					for i := 0; i < give; i++ {
+						wantN = append(wantN, fmt.Sprintf("new-ext%d", i+1))
+					}
+					want := strings.Join(wantN, ",")
+					if give == 0 {
+						if got != "nil" && got != "" {
+							problems = append(problems, fmt.Sprintf("SetExtensions() with no arguments leaves the extensions %s attached", got))
+						}
+					} else if got != want {
+						problems = append(problems, fmt.Sprintf("after SetExtensions(%s) on a writer that had %d extensions the writer runs [%s]: extensions set earlier keep touching the reserved bits (and a compression state attached twice refuses its own bit)", want, had, got))
+					}
+				})
+				for _, p := range ps {
+					if p.Abort != "" || p.Panic {
+						problems = append(problems, "undecided: "+p.Abort+panicNote(p))
+					}
+				}
+			}
+		}
+		c.verdict(rule, rule+"/SetExtensions", c.P.FuncPos(f), uniq(problems), "replaces the attached extensions")
 	}
 	// pool cycle
 	if f := c.fn(rule, wsutil, "GetWriter"); f != nil {
